@@ -14,6 +14,9 @@ tiled_docforms the two documented argument forms ``a`` Integral and ``size=None`
 axis_shuffle   arrays <= 4-D, axis int / tuple (never all axes)
 outcross_grid  exhaustive: all tables over {0,1,2} of shape r x c, r<=3, c<=2, three generator seeds each
 outcross       generated tables 1-6 x 1-4 with heavy repetition
+outcross_wide  generated wide tables (12-60 parents per cross, 2-4 crosses) built from run-structured families, so
+               that the descent needs many more accepted exchanges than there are crosses
+outcross_wide_fixed  a few fixed wide tables with long climbs; the expensive ones only in the thorough tier
 """
 import collections
 import itertools
@@ -52,6 +55,8 @@ ASSUMPTIONS = [
     "slice of the (distinct-valued) array unchanged is below 1e-12",
     "outcross_shuffle: tables are C-contiguous integer arrays as produced by the library's own callers "
     "(the function works on xconfig.ravel(), which is a view only for contiguous input)",
+    "outcross_shuffle wide tables: sizes are bounded by cost (one pass evaluates (r*c)^2/2 exchanges with r "
+    "numpy.unique calls each): quick tier r*c <= 144, thorough tier r*c <= 240",
 ]
 
 EPS = 2.0 ** -52
@@ -591,7 +596,7 @@ def outcross_clauses(table, rng_spec, ctx, tag):
     except ShuffleBudgetExceeded:
         ctx.fail(tag + "search_does_not_terminate", "more than %d shuffles on %s (%d repeats initially)"
                  % (rng.shuffle_limit, before, ndup(before)))
-        return
+        return None
     after = [list(map(int, row)) for row in x.tolist()]
     d0, d1 = ndup(before), ndup(after)
     ctx.check(ret is None, tag + "returns_none")
@@ -621,6 +626,7 @@ def outcross_clauses(table, rng_spec, ctx, tag):
     ctx.label("irreducible_duplicates_remain", d1 > 0)
     ctx.label("already_optimal_with_duplicates", d0 > 0 and d1 == d0)
     ctx.nontrivial(d1 < d0)
+    return rng.nshuffle      # number of passes over the exchange list (one shuffle() per pass)
 
 
 def outcross_grid_cases(tier):
@@ -661,6 +667,114 @@ def check_outcross(case, ctx):
     outcross_clauses(table, case["rng"], ctx, "outcross.")
 
 
+# Wide tables (many parents per cross, e.g. polycross blocks) with heavy duplication: the descent needs many
+# accepted exchanges -- more than any small multiple of the number of crosses -- before it reaches a local optimum.
+WIDE_FAMILIES = ("blocks", "blocks", "sorted_draws", "sorted_draws", "crowded_row", "random_draws", "columns")
+
+
+def wide_table(spec):
+    """Build an r x c table (list of lists of python ints) deterministically from a JSON spec.
+
+    blocks        the candidate list 0,1,2,... with `copies` consecutive copies of each, cut into crosses in order
+                  (numpy.repeat(candidates, copies).reshape(r, c)): every cross starts as runs of identical entries
+    sorted_draws  r*c draws from `nsym` candidates, sorted (uneven run lengths)
+    crowded_row   one cross made of runs of `copies` identical entries, all other crosses made of distinct
+                  individuals that occur nowhere else (every useful exchange removes exactly one repeat)
+    random_draws  r*c draws from `nsym` candidates in random order
+    columns       every cross is 0..c-1 (no repeats at all) -- interesting only after the transpositions below
+    afterwards `nswap` random transpositions of flat positions are applied (0 = the pure family).
+    """
+    r, c = int(spec["r"]), int(spec["c"])
+    n = r * c
+    fam = spec["family"]
+    g = numpy.random.default_rng(int(spec["tseed"]))
+    m = max(1, int(spec["copies"]))
+    nsym = max(1, int(spec["nsym"]))
+    if fam == "blocks":
+        cells = numpy.repeat(numpy.arange((n + m - 1) // m), m)[:n]
+    elif fam == "sorted_draws":
+        cells = numpy.sort(g.integers(0, nsym, n))
+    elif fam == "crowded_row":
+        cells = 10000 + numpy.arange(n)
+        k = int(spec["row"]) % r
+        cells[k * c:(k + 1) * c] = numpy.repeat(numpy.arange((c + m - 1) // m), m)[:c]
+    elif fam == "random_draws":
+        cells = g.integers(0, nsym, n)
+    elif fam == "columns":
+        cells = numpy.tile(numpy.arange(c), r)
+    else:
+        raise ValueError(fam)
+    cells = [int(v) for v in cells]
+    for _ in range(int(spec["nswap"])):
+        i, j = int(g.integers(0, n)), int(g.integers(0, n))
+        cells[i], cells[j] = cells[j], cells[i]
+    if spec.get("relabel") == "spread":
+        cells = [100000 - 37 * v for v in cells]
+    return [cells[i * c:(i + 1) * c] for i in range(r)]
+
+
+@st.composite
+def outcross_wide_case(draw):
+    # sizes are bounded by cost: one sweep evaluates (r*c)^2/2 exchanges with r numpy.unique calls each
+    r = draw(st.sampled_from([2, 2, 2, 3, 3, 4]))
+    cmax = {2: 60, 3: 36, 4: 28}[r]
+    c = draw(st.one_of(st.integers(12, cmax), st.integers((3 * cmax) // 4, cmax), st.integers((3 * cmax) // 4, cmax)))
+    fam = draw(st.sampled_from(WIDE_FAMILIES))
+    copies = draw(st.sampled_from([2, 3, 4, 6, r, r, r, r]))
+    nsym = draw(st.one_of(st.integers(c, 2 * c), st.integers(c, 2 * c), st.integers(max(2, c // 2), 3 * c)))
+    nswap = draw(st.sampled_from([0, 0, 0, 1, 2, 5, c, r * c]))
+    return {"r": r, "c": c, "family": fam, "copies": copies, "nsym": nsym, "row": draw(st.integers(0, 3)),
+            "tseed": draw(_seed), "nswap": nswap, "relabel": draw(st.sampled_from(["identity", "spread"])),
+            "rng": draw(real_rng)}
+
+
+def check_outcross_wide(case, ctx):
+    table = wide_table(case)
+    r, c = len(table), len(table[0])
+    ctx.label("family=" + case["family"])
+    ctx.label("ncross=%d" % r)
+    ctx.label("nparent>=24", c >= 24)
+    ctx.label("nparent>=40", c >= 40)
+    ctx.label("perturbed", case["nswap"] > 0)
+    rounds = outcross_clauses(table, case["rng"], ctx, "outcross_wide.")
+    if rounds is not None:
+        # measured on the generator: how long was the climb (each shuffle() call is one pass over the exchanges)
+        ctx.label("climb_longer_than_5_passes_per_cross", rounds > 5 * r)
+        ctx.label("climb_longer_than_10_passes_per_cross", rounds > 10 * r + 1)
+        ctx.label("climb_longer_than_20_passes_per_cross", rounds > 20 * r + 1)
+        ctx.label("climb_longer_than_50_passes", rounds > 50)
+        ctx.note("passes", rounds)
+
+
+def outcross_wide_fixed_cases(tier):
+    """A few fixed wide tables whose climbs are long by construction (blocks: about (r-1)*c/2.. (r-1)*c accepted
+    exchanges; crowded_row: exactly c/copies*(copies-1)... accepted exchanges).  The expensive ones (tens of seconds
+    per call on the unchanged code) run in the thorough tier only."""
+    out = []
+
+    def add(fam, r, c, copies, seeds, nswap=0):
+        for s in seeds:
+            out.append({"r": r, "c": c, "family": fam, "copies": copies, "nsym": c, "row": s, "tseed": s,
+                        "nswap": nswap, "relabel": "identity", "rng": {"kind": "rs" if s % 2 == 0 else "gen", "seed": s}})
+
+    add("blocks", 2, 48, 2, (0, 1))
+    add("blocks", 3, 30, 3, (0, 1))
+    add("blocks", 3, 32, 2, (0, 1))
+    add("crowded_row", 2, 48, 2, (0, 1))
+    add("crowded_row", 3, 48, 3, (0, 1))
+    add("blocks", 4, 24, 4, (0, 1))
+    add("blocks", 2, 60, 2, (0, 1), nswap=10)
+    if tier == "thorough":
+        add("blocks", 6, 40, 6, (0, 1))
+        add("blocks", 4, 48, 4, (0, 1))
+        add("blocks", 5, 40, 3, (0, 1), nswap=40)
+        add("sorted_draws", 4, 40, 1, (0, 1, 2, 3))
+        add("crowded_row", 4, 60, 4, (0, 1))
+        add("blocks", 2, 100, 2, (0, 1))
+        add("blocks", 8, 24, 8, (0, 1))
+    return out
+
+
 SUBCHECKS = [
     SubCheck("sus", check_sus, sus_case(False), quick=2500, thorough=8000, shards_quick=4,
              rule="generated (weights n<=10: integer/equal/decimal-grid/1e-12/1e12/power-of-two/mixed-magnitude/float, "
@@ -693,4 +807,18 @@ SUBCHECKS = [
     SubCheck("outcross", check_outcross, outcross_case(), quick=1200, thorough=5000, shards_quick=2,
              rule="generated tables 1-6 x 1-4 over 1-6 symbols; non-trivial = at least one duplicate removed",
              required_labels=("duplicates_removed", "irreducible_duplicates_remain", "already_optimal_with_duplicates")),
+    SubCheck("outcross_wide", check_outcross_wide, outcross_wide_case(), quick=16, thorough=400, shards_quick=6,
+             shrink_s=20.0,
+             rule="generated wide tables (2 x 12-60, 3 x 12-36, 4 x 12-28) with heavy repetition: candidate list with "
+                  "2-6 consecutive copies cut into crosses in order, sorted draws, one crowded cross among distinct "
+                  "ones, random draws, repeat-free columns; 0 to r*c random transpositions on top; non-trivial = at "
+                  "least one duplicate removed",
+             required_labels=("duplicates_removed", "irreducible_duplicates_remain",
+                              "climb_longer_than_10_passes_per_cross", "nparent>=40", "perturbed")),
+    SubCheck("outcross_wide_fixed", check_outcross_wide, cases=outcross_wide_fixed_cases, shards_quick=4,
+             shards_thorough=16,
+             rule="finite: 14 wide tables with long climbs by construction (2x48, 2x60, 3x30, 3x32, 3x48, 4x24; "
+                  "25-50 accepted exchanges); thorough adds 16 larger ones (6x40, 4x48, 5x40, 4x40, 4x60, 2x100, 8x24; "
+                  "40-150 accepted exchanges, seconds to tens of seconds per call)",
+             required_labels=("climb_longer_than_10_passes_per_cross",)),
 ]
